@@ -325,6 +325,10 @@ def work_list(ctx):
         E("dict", progs)
     for progs in ([[5], [5], [5]], [[5], [5], [7]], [[5], [7], [9]]):    # 3 threads x 1 cycle
         E("dict", progs)
+    # ---- the keyed lock judged from outside (monitor only; each thread pauses inside its section): valid for any
+    # implementation of LockDict, also one whose private layout the model correspondence cannot read
+    for progs in ([[5], [5], [5]], [[5, 5], [5]], [[5], [5], [7]], [[5], [5], [5], [5]]):
+        W.append(("enum", "dictbb", progs, (ctx.n(600, 20000), 0, ctx.n(150, 3000), ctx.rng.randrange(10 ** 9))))
     # ---- the composition the server uses: Storage.acquire_lock + Collection._acquire_cache_lock (monitor only)
     ccap = ctx.n(250, 20000)
     for progs in ([[("r", "/u/c/", "")], [("r", "/u/c/", "")]], [[("r", "/u/c/", "")], [("w", "/u/c/", "")]],
@@ -408,7 +412,7 @@ def run_task(task):
         cont = any(len(en) < nthreads for en in r["enabled"][:max(1, len(r["enabled"]) // 2)])
         contended += 1 if cont else 0
         if keep_it or r["violation"] is not None:
-            cases.append((r["schedule"], r["trace"] if kind not in ("comp", "sweep") else [], cont))
+            cases.append((r["schedule"], r["trace"] if kind not in ("comp", "sweep", "dictbb") else [], cont))
         else:
             monitored_only += 1
         if r["violation"] is not None and violation is None:
@@ -416,7 +420,7 @@ def run_task(task):
 
     if tkind == "enum":
         cap, keep, extra, seed = param
-        if kind in ("comp", "sweep"):
+        if kind in ("comp", "sweep", "dictbb"):
             keep = 400          # nothing is sent to Coq for these; only keys for the coverage count
         n = 0
         for r in X.enumerate_schedules(kind, progs, limit=cap):
@@ -744,7 +748,7 @@ def run(ctx):
     # ---------------------------------------------------------------- enumerate / sample schedules on the real classes
     W = work_list(ctx)
     ctx.log("scheduling %d tasks" % len(W))
-    per_kind = {"cond": [], "file": [], "dict": [], "comp": [], "cache": [], "sweep": []}
+    per_kind = {"cond": [], "file": [], "dict": [], "dictbb": [], "comp": [], "cache": [], "sweep": []}
     cache_fileops = set()
     first_violation = None
     steps = 0
@@ -772,7 +776,7 @@ def run(ctx):
                 faulty = kind == "file" and any(len(c) > 2 and c[2] == 2 for _, prog in progs for c in prog)
                 if kind == "store":        # same observation vector as "file": compared with RwLockFile.v
                     per_kind["file"].append(((progs[1], sched), trace))
-                elif kind not in ("comp", "sweep") and not faulty and not (kind == "cache" and isinstance(progs[0], str)):
+                elif kind not in ("comp", "sweep", "dictbb") and not faulty and not (kind == "cache" and isinstance(progs[0], str)):
                     # (the composition and the storage-lock-held variant are monitored only)
                     per_kind[kind].append(((progs, sched), trace))
             if violation is not None and first_violation is None:
